@@ -147,7 +147,7 @@ func c28EpicSide(n *netsim.Net, c *c28Cand, p combinator.Path) string {
 func TestC28(t *testing.T) {
 	r := mc.NewRun(t, "C28", mc.Exploration)
 	r.Rule = "topology family (netsim.CombFamily: core meshes, trees, multi-homing, parallel links, peering subsets incl. parallel / leaf / " +
-		"core peering, 2 ISDs) x parameter perturbations re-beaconed through the real extender (each AS: MTU and MaxExpTime lowered; each link: " +
+		"core peering, 2-3 ISDs, also with the ISDs re-using the same AS numbers) x parameter perturbations re-beaconed through the real extender (each AS: MTU and MaxExpTime lowered; each link: " +
 		"MTU lowered; second, older beacon generation in both supply orders; newer generation expiring earlier via one AS; all segments of " +
 		"all ASes supplied; detachable EPIC extension on all / every second / each single AS and on one of two generations; static-info + discovery extensions on all / every second AS, also with EPIC; thorough: also all ordered pairs of these) x all ordered AS pairs x findAllIdentical {false,true} x every returned " +
 		"path; distinct key = variant + pair + mode + info/hop fields of the path; non-trivial = all returned paths"
@@ -366,6 +366,9 @@ func TestC28(t *testing.T) {
 										extSeen["paths_with_announced_latency"]++
 										break
 									}
+								}
+								if c28SharedNumber(mifs) {
+									r.Outcome("ok-through-ases-sharing-an-as-number")
 								}
 								r.Outcome("ok/" + c.Kind)
 								if nPaths%4001 == 1 {
